@@ -210,11 +210,14 @@ static void mask_case(const irc_inaddr *c, const irc_inaddr *m)
 
 static int do_mask(void)
 {
-    static const unsigned short bases[2][8] = { {0,0,0,0,0,0,0,0}, {0xa5a5,0x5a5a,0xffff,0x0001,0x8000,0x1234,0xfedc,0x00ff} };
+    /* the last two: an IPv6 address that merely has ffff in its sixth group, and an IPv4-mapped one (whatever shortcut the matcher takes for "IPv4" must still
+     * compare the leading groups) */
+    static const unsigned short bases[4][8] = { {0,0,0,0,0,0,0,0}, {0xa5a5,0x5a5a,0xffff,0x0001,0x8000,0x1234,0xfedc,0x00ff},
+                                                {0x2001,0x0db8,0,0,0,0xffff,0x0a00,0x0001}, {0,0,0,0,0,0xffff,0xc0a8,0x6401} };
     static const unsigned dd[3] = { 1, 0x8000, 0xffff };
     irc_inaddr c, m;
     unsigned b, g, g2, d, k, x, y;
-    for (b = 0; b < 2; ++b) {
+    for (b = 0; b < 4; ++b) {
         for (k = 0; k < 8; ++k) c.in6[k] = htons(bases[b][k]);
         for (g = 0; g < 8; ++g)
             for (d = 0; d < 65536; ++d) {
